@@ -631,6 +631,14 @@ impl<'a> Interp<'a> {
                     self.c.verif_raw_gate(sel, wires, pi);
                 }
             }
+            "ret" => {
+                // declares which witnesses the scenario regards as "returned"
+                if let Some(ws) = op.get("w").and_then(|w| w.as_array()) {
+                    for w in ws {
+                        ret.push(self.wit_v(w)?.index());
+                    }
+                }
+            }
             "set_witness_opt" => {
                 // adversarial override keyed by the SPECIFICATION's layout: when the
                 // implementation's layout has drifted the index may not exist; the
